@@ -788,6 +788,9 @@ def check_C12(A, R, tier):
     # R12.e (= R11.1): a job that ends with an output has each of its per-dependency records rewritten on every path (a skipped
     # job validated against a record under a former id otherwise ends without any record of that dependency and is rebuilt next time)
     rule_edge_records_rewritten(A, R, "R12.e")
+    # R12.f (= R18.5/R9.4): the own records of a present job that was not renamed pass the initial filter whatever they look like
+    # (a job that does not run in this evaluation gets them back from nowhere else)
+    rule_filter_keeps_own(A, R, "R12.f")
     # R12.s: 'is the output there?' is asked per job id (a multi-output job asked piece by piece is never 'there': rebuilt every time)
     from rules_compare import rule_strategy_asked_by_job_id
     rule_strategy_asked_by_job_id(A, R, "R12.s")
